@@ -165,6 +165,10 @@ def sender_programs(ctx, n_gen):
         ('huge', [{'a': 'att'}, {'a': 'sleep', 'ms': 150}, {'a': 'w', 'op': t3('v1', 'v2', 'v3')}, {'a': 'sleep', 'ms': 50}, s1('k1', 'v4'),
                   {'a': 'abn', 'op': t3('v5', 'TOMB', 'v6')}, {'a': 'ab', 'op': t3('v7', 'v8', 'v9')}, {'a': 'flush'}, s1('k2', 'v1'),
                   {'a': 'w', 'op': t3('v2', 'v2', 'v2')}]),
+        # pushed batches of more than 100 entries (attached and caught up), then the same as a backlog for the catch-up
+        ('ascii', [{'a': 'att'}, s1('k1', 'v1'), {'a': 'sleep', 'ms': 250}, {'a': 'w', 'op': long_batch(150, 0, 'k1')}, {'a': 'sleep', 'ms': 150},
+                   s1('k2', 'v2'), {'a': 'abn', 'op': long_batch(120, 3, 'k2')}, {'a': 'ab', 'op': long_batch(101, 5)}, {'a': 'det'},
+                   {'a': 'w', 'op': long_batch(130, 7)}, s1('k3', 'v3'), {'a': 'ab', 'op': long_batch(110, 2, 'k3')}, {'a': 'att'}]),
         # detach / re-attach from the applied position with a backlog
         ('ascii', [s1('k1', 'v1'), {'a': 'att'}, s1('k2', 'v2'), {'a': 'flush'}, s1('k3', 'v3'), {'a': 'det'}, {'a': 'w', 'op': t3('v4', 'v5', 'v6')},
                    s1('k1', 'v7'), {'a': 'att'}, {'a': 'sleep', 'ms': 120}, {'a': 'abn', 'op': t3('v8', 'v9', 'TOMB')}]),
@@ -257,6 +261,12 @@ SYSCFG = {
 }
 
 
+def long_batch(n, voff=0, delete=None):
+    """A batch longer than the 100-entry chunk of the senders: n puts over n distinct keys (+ one delete)."""
+    op = [{'k': 'l%03d' % i, 'v': 'v%d' % ((i + voff) % 9 + 1)} for i in range(1, n + 1)]
+    return op + ([{'k': delete, 'v': 'TOMB'}] if delete else [])
+
+
 def concretise(beh, rng, move_join=None):
     """Behaviour of GEN_ReplSys -> steps of the driver.  Keys/values are drawn from the seed; a 'sync' becomes a pause."""
     steps = []
@@ -268,6 +278,9 @@ def concretise(beh, rng, move_join=None):
             # a batch reaches the log through Transaction.Commit or through Engine.ApplyBatch, whose entries may carry no number
             # ("ab") or the number the batch is about to get ("abn") in their SequenceNumber field
             api = 'w' if e['n'] == 1 else rng.choice(['w', 'w', 'ab', 'abn'])
+            if e['n'] >= 3 and rng.random() < 0.12:
+                # the model's batch that is longer than its chunk, at the size of the code's chunk: > 100 entries
+                op = long_batch(101 + rng.randint(0, 60), rng.randint(0, 8), rng.choice([None, 'k1', 'k2']))
             steps.append({'a': api, 'op': op})
         elif e['a'] == 'sync':
             steps.append({'a': 'sleep', 'ms': rng.choice([60, 150, 400, 1200])})
@@ -312,7 +325,12 @@ def fixed_scenarios():
                {'a': 'w', 'op': [{'k': 'k3', 'v': 'v5'}]}, {'a': 'w', 'op': [{'k': 'k3', 'v': 'v6'}]},
                {'a': 'w', 'op': [{'k': 'k1', 'v': 'v7'}, {'k': 'k2', 'v': 'v8'}]}, {'a': 'rstart'}, {'a': 'sleep', 'ms': 300},
                {'a': 'w', 'op': [{'k': 'k1', 'v': 'v9'}]}]
-    return [('restart-after-transaction-writes-while-down', restart, 'ascii', 'mid'), ('catchup-volume-cut-in-transaction', vol, 'huge', 'mid'), ('pushed-batches-over-256KB', big_push, 'huge', 'mid'), ('pushed-applybatch-numbered-entries', numbered, 'ascii', 'mid'),
+    # batches of MORE than 100 entries pushed to a connected, caught-up replica: a transaction and an Engine.ApplyBatch
+    long_push = [{'a': 'join'}, {'a': 'w', 'op': [{'k': 'k1', 'v': 'v1'}]}, {'a': 'sleep', 'ms': 1800},
+                 {'a': 'w', 'op': long_batch(150, 0, 'k1')}, {'a': 'sleep', 'ms': 500}, {'a': 'w', 'op': [{'k': 'k2', 'v': 'v2'}]},
+                 {'a': 'sleep', 'ms': 500}, {'a': 'abn', 'op': long_batch(120, 3, 'k2')}, {'a': 'sleep', 'ms': 300},
+                 {'a': 'ab', 'op': long_batch(101, 5)}, {'a': 'w', 'op': [{'k': 'k3', 'v': 'v3'}]}]
+    return [('pushed-batches-over-100-entries', long_push, 'ascii', 'mid'), ('restart-after-transaction-writes-while-down', restart, 'ascii', 'mid'), ('catchup-volume-cut-in-transaction', vol, 'huge', 'mid'), ('pushed-batches-over-256KB', big_push, 'huge', 'mid'), ('pushed-applybatch-numbered-entries', numbered, 'ascii', 'mid'),
             ('chunk-cuts-batch-join-after', many, 'ascii', 'mid'), ('single-after-idle', single_after_idle, 'binary', 'mid'),
             ('pushed-transactions', txn_push, 'ascii', 'mid'), ('flush-between', flush_between, 'ascii', 'mid'),
             ('big-values-join-after', many[60:], 'big', 'bigval')]
@@ -623,7 +641,7 @@ def check_C13(ctx):
         restart_selftest(ctx, runs)
     ctx.samples.append([e for e in runs[2] if e['e'] != 'wret'][:14])
     write_evidence(ctx, 'model_checking',
-                   'KevoRepl model-checked exhaustively (AppliedIsPrefix, NoSplitBatch, ExpectedFollowsApplied, ReportedLeApplied, '
+                   'KevoRepl model-checked exhaustively, also with batches longer than the senders\' chunk (MC_Repl_quick: MaxBatch 2 > Chunk 1; GEN_Repl: 3 > 2) (AppliedIsPrefix, NoSplitBatch, ExpectedFollowsApplied, ReportedLeApplied, '
                    'AckLeApplied, ReportedMonotone, AppliedOnlyGrows; dropping the whole-batch rule violates NoSplitBatch). Bound to the code by '
                    '(1) deterministic component replay: delivery schedules drawn by TLC simulation of GEN_Repl (push/poll/initial/resend '
                    'overlap, loss, duplication, reordering, stray whole-batch messages from any position, reconnects, restarts; logs with '
